@@ -192,6 +192,12 @@ where
 }
 
 pub fn check_queries<D: Queries>(g: &D, name: &str, m: &UModel, walks: &[Vec<usize>]) -> Verdict {
+    check_queries_opt(g, name, m, walks, true)
+}
+
+/// `with_protocol`: also drive the iterators through the consumption protocol
+/// (done for one representation per case, chosen by the case, to bound the cost).
+pub fn check_queries_opt<D: Queries>(g: &D, name: &str, m: &UModel, walks: &[Vec<usize>], with_protocol: bool) -> Verdict {
     let before = g.clone();
     let vs = m.vertices();
     ensure!(g.order() == m.order(), "{name}: order() = {}, |V| = {}", g.order(), m.order());
@@ -270,11 +276,13 @@ pub fn check_queries<D: Queries>(g: &D, name: &str, m: &UModel, walks: &[Vec<usi
         );
     }
     // iterator protocol of the sequence-valued queries
-    protocol(&format!("{name}: arcs()"), || g.arcs(), &m.arcs())?;
-    protocol(&format!("{name}: vertices()"), || g.vertices(), &vs)?;
-    for &v in probe.iter().take(1).chain(probe.last()) {
-        protocol(&format!("{name}: out_neighbors({v})"), || g.out_neighbors(v), &m.out(v))?;
-        protocol(&format!("{name}: in_neighbors({v})"), || g.in_neighbors(v), &m.inn(v))?;
+    if with_protocol {
+        protocol(&format!("{name}: arcs()"), || g.arcs(), &m.arcs())?;
+        protocol(&format!("{name}: vertices()"), || g.vertices(), &vs)?;
+        for &v in probe.iter().take(2).chain(probe.last()) {
+            protocol(&format!("{name}: out_neighbors({v})"), || g.out_neighbors(v), &m.out(v))?;
+            protocol(&format!("{name}: in_neighbors({v})"), || g.in_neighbors(v), &m.inn(v))?;
+        }
     }
     let sinks: Vec<usize> = g.sinks().collect();
     let want: Vec<usize> = vs.iter().copied().filter(|v| outdeg_of[v] == 0).collect();
@@ -285,7 +293,7 @@ pub fn check_queries<D: Queries>(g: &D, name: &str, m: &UModel, walks: &[Vec<usi
     let ds: Vec<usize> = g.degree_sequence().collect();
     let want: Vec<usize> = indeg.iter().zip(&outdeg).map(|(a, b)| a + b).collect();
     ensure!(ds == want, "{name}: degree_sequence() = {ds:?}, definition {want:?}");
-    if vs.len() <= 64 {
+    if vs.len() <= 64 && with_protocol {
         protocol(&format!("{name}: degree_sequence()"), || g.degree_sequence(), &want)?;
         protocol(&format!("{name}: sinks()"), || g.sinks(), &sinks)?;
         protocol(&format!("{name}: sources()"), || g.sources(), &sources)?;
@@ -407,7 +415,7 @@ impl Prop for C02 {
             Leg {
                 name: "random",
                 kind: LegKind::Random {
-                    cases: tier.pick(4000, 16000),
+                    cases: tier.pick(6000, 20000),
                 },
                 workers: 16,
                 build: Build::Normal,
@@ -525,15 +533,16 @@ impl Prop for C02 {
             match &c.g {
                 G::Contiguous(d) => {
                     let m = reprs::model_of(d);
-                    check_queries(&AdjacencyList::build(d), "AdjacencyList", &m, &c.walks)?;
-                    check_queries(&AdjacencyMap::build(d), "AdjacencyMap", &m, &c.walks)?;
-                    check_queries(&AdjacencyMatrix::build(d), "AdjacencyMatrix", &m, &c.walks)?;
-                    check_queries(&EdgeList::build(d), "EdgeList", &m, &c.walks)?;
+                    let pick = (m.size() * 7 + m.order() + c.cpus) % 5;
+                    check_queries_opt(&AdjacencyList::build(d), "AdjacencyList", &m, &c.walks, pick == 0)?;
+                    check_queries_opt(&AdjacencyMap::build(d), "AdjacencyMap", &m, &c.walks, pick == 1)?;
+                    check_queries_opt(&AdjacencyMatrix::build(d), "AdjacencyMatrix", &m, &c.walks, pick == 2)?;
+                    check_queries_opt(&EdgeList::build(d), "EdgeList", &m, &c.walks, pick == 3)?;
                     let mut w = AdjacencyListWeighted::<usize>::empty(d.order);
                     for &(u, v) in &d.arcs {
                         w.add_arc_weighted(u, v, weight_of(u, v));
                     }
-                    check_queries(&w, "AdjacencyListWeighted", &m, &c.walks)?;
+                    check_queries_opt(&w, "AdjacencyListWeighted", &m, &c.walks, pick == 4)?;
                     check_weighted(&w, &m)
                 }
                 G::Map(d) => {
